@@ -12,7 +12,8 @@ PID = "C02"
 RULE = ("case = (plaintext segments incl. capacity-boundary families, level, --sequential?, workers, schedule); "
         "the compressed stream is parsed bit by bit by bzkit (independent strict inspector) and decoded by libbz2 "
         "(Python bz2 and, for a share of cases, /usr/bin/bzip2); non-trivial = stream with >= 1 non-empty block; "
-        "distinct by (input hash, level, mode)")
+        "distinct by (input hash, level, mode); plus 2-4 operands compressed by ONE invocation (FILE operands with -k, or -c), "
+        "each resulting stream judged on its own")
 K20 = 1 << 20
 
 
@@ -120,6 +121,72 @@ def make_eval(exe):
     return ev
 
 
+def make_multi_eval(exe):
+    """Several operands in ONE invocation (FILE operands with -k, or -c): every stream written must be well-formed on
+    its own -- state that survives from one operand to the next (stream CRC accumulator, encoder state, sequential-mode
+    leftovers) shows up in the second and later streams only."""
+    import os
+    import bzk
+
+    def ev(case, stats):
+        datas = [plain.materialize(sg) for sg in case["files"]]
+        with core.TempDir() as td:
+            names = []
+            for i, d in enumerate(datas):
+                with open(os.path.join(td, "f%d" % i), "wb") as f:
+                    f.write(d)
+                names.append("f%d" % i)
+            argv = [exe, "-z", "-%d" % case["level"], "-n", str(case["n"])] + (["-u"] if case["seq"] else [])
+            argv += ["-c"] if case["to_stdout"] else ["-k"]
+            r = core.run(argv + names, cwd=td, env=lb.sched_env(case["sched"]), timeout=180)
+            if r.timeout:
+                stats.inconclusive += 1
+                return None
+            bad = None
+            if r.rc != 0 or r.err:
+                bad = "compressor failed rc=%s err=%r" % (r.rc, r.err[:200])
+            else:
+                if case["to_stdout"]:
+                    # the concatenation: split it with the inspector, then judge each stream on its own
+                    info, out = bzk.inspect(r.out)
+                    if not info["valid"] or len(info["streams"]) != len(datas):
+                        bad = "-c output of %d operands: %s (%d streams)" % (len(datas), info["reason"], len(info["streams"]))
+                    outs = []
+                    if not bad:
+                        for st_ in info["streams"]:
+                            outs.append(r.out[st_["bit"] // 8:st_["end_byte"]])
+                else:
+                    outs = [open(os.path.join(td, n + ".bz2"), "rb").read() for n in names]
+                if not bad:
+                    for i, (d, z) in enumerate(zip(datas, outs)):
+                        info, out = bzk.inspect(z)
+                        why = check_stream(d, case["level"], z, info, out)
+                        if why:
+                            bad = "operand %d of %d: %s" % (i + 1, len(datas), why)
+                            break
+        stats.add(core.fp(datas, case["level"], case["seq"], case["to_stdout"]), len(datas) >= 2 and any(datas),
+                  ["multi-operand", "operands=%d" % len(datas), "-c" if case["to_stdout"] else "FILE->FILE.bz2",
+                   "level%d" % case["level"], "seq" if case["seq"] else "par"],
+                  {"operands": [sg[:2] for sg in case["files"]], "level": case["level"], "seq": case["seq"],
+                   "to_stdout": case["to_stdout"], "n": case["n"]})
+        if bad:
+            f = dict(case)
+            f["what"] = bad
+            f["multi"] = True
+            return f
+        return None
+    return ev
+
+
+def multi_strategy():
+    from hypothesis import strategies as st
+    return st.fixed_dictionaries({
+        "files": st.lists(plain.plaintext(150000, max_segs=3), min_size=2, max_size=4),
+        "level": st.sampled_from([1, 1, 2, 5, 9]), "seq": st.booleans(), "to_stdout": st.booleans(),
+        "n": st.sampled_from([1, 2, 4, 16]), "sched": _enc.SCHED,
+    })
+
+
 def fixed_cases(tier):
     """Deterministic boundary cases every run includes."""
     cs = [{"segs": [["debruijn", 97, 900000]], "level": 9, "seq": False, "n": 2, "sched": None},
@@ -132,6 +199,8 @@ def fixed_cases(tier):
 
 def replay_case(case):
     exe = core.build("rel")
+    if case.get("multi"):
+        return make_multi_eval(exe)(case, core.Stats())
     return make_eval(exe)(case, core.Stats())
 
 
@@ -152,6 +221,9 @@ def run(tier, seed):
     st0, f0 = core.pmap_cases(ev, fixed_cases(tier))
     stats, fails = core.hyp_search(lambda: _enc.case_strategy(mt, boundary_weight=1), ev, n, seed)
     stats.merge(st0)
+    s2, f2 = core.hyp_search(multi_strategy, make_multi_eval(exe), 400 if tier == "quick" else 8000, seed + 3)
+    stats.merge(s2)
+    fails = fails + f2
     oc = core.conclude(PID, f0 + fails, replay_case)
     core.write_evidence(PID, tier, seed, "exploration", stats, RULE, time.time() - t0,
                         violations=len(oc.violations),
